@@ -149,7 +149,7 @@ def r3_pool_side(r, facts):
     regs = fam.guard_regions(f, 'reregister_lock')
     if not r.require(len(regs) == 1, 'ReadBufPool::release', 'lock(&self.reregister_lock) not found', f.where()):
         return
-    live = regs[0]['live']
+    live = regs[0]['held']
     writes = [(loc, t) for loc, t in f.calls() if (t.get('callee') or '') == 'std::mem::MaybeUninit::<T>::write']
     stores = [(loc, t) for loc, t in f.calls() if (t.get('callee') or '') == 'std::sync::atomic::Atomic::<u16>::store']
     loads = [(loc, t) for loc, t in f.calls() if (t.get('callee') or '') == 'std::sync::atomic::Atomic::<u16>::load']
